@@ -73,9 +73,11 @@ ODS_FEATURES = {
     "row-group": "rows inside table:table-row-group (twin: plain rows)",
     "cell-annotation": "office:annotation inside a string cell (twin: no annotation)",
     "covered-cell": "merged cell followed by table:covered-table-cell (twin: plain empty cell)",
+    "wide-merge": "a cell merged over three or four columns, its covered cells written as one table:covered-table-cell with number-columns-repeated, and a value to the right of the merge (twin: the covered cells written one by one)",
     "repeated-cell": "table:number-columns-repeated=3 on a string cell (twin: three literal cells)",
     "repeated-row": "table:number-rows-repeated=2 on a data row (twin: two literal rows)",
     "empty-sheet": "a sheet without content (one repeated empty filler row, as LibreOffice writes it) among other sheets (twin: one string cell)",
+    "shared-picture": "one package picture (a logo) placed by a frame on every sheet next to a picture of the sheet's own (twin: a copy of the logo per sheet under its own name)",
     "missing-picture-part": "three picture frames on one sheet, the middle one's picture part is not in the package (twin: all three are)",
     "sub-table": "a cell holding a sub-table (table:is-sub-table) with two rows (twin: the same two paragraphs directly in the cell)",
     "dde-link": "the cached table of a DDE link after the sheets (a table:table that is not a sheet) (twin: none)",
@@ -132,6 +134,8 @@ def _frame_image(rng, files, exp, idx, unit, x="1cm", y="1cm", reuse=None, missi
         name = random.Random(f"odf-picture-untyped-name:{idx}").choice([f"ObjectReplacements/Object {idx}", f"Pictures/img{idx}.met", f"Pictures/img{idx}"])
         ctype = None
     im["name"] = name
+    if "." not in name.rsplit("/", 1)[-1] or name.rsplit(".", 1)[-1].lower() not in ("png", "jpg", "jpeg", "gif", "bmp"):
+        ctype = None        # (also for a re-used picture stored under an untyped name)
     if not missing:
         files[name] = im["data"]
     # the frame's size in any of the ODF length units; the reported pixel size is that length at 96 dpi (quarter inches: exact in every unit)
@@ -495,16 +499,19 @@ def build_ods(seed: int, feature: str | None = None, twin: bool = False):
     meta = _meta(tk, exp, rng)
     files: dict[str, bytes] = {}
     n_sheets = rng.randint(1, 4)
-    if feature == "empty-sheet":
+    if feature in ("empty-sheet", "shared-picture"):
         n_sheets = max(2, n_sheets)
     feature_sheet = rng.randrange(n_sheets)
     tables = []
     n_img = 0
+    ods_logo = None
     for s in range(n_sheets):
         name = exp.text(tk.new("s"), s)
         rows, cols = rng.randint(2, 6), rng.randint(2, 5)
         grid, trs = [], []
         is_f = feature is not None and s == feature_sheet
+        if is_f and feature == "wide-merge":
+            cols = max(cols, 5)
         if is_f and feature == "empty-sheet":
             rows = 0        # a sheet that holds nothing but LibreOffice's one empty filler row (twin: one string cell)
         for i in range(rows):
@@ -535,6 +542,15 @@ def build_ods(seed: int, feature: str | None = None, twin: bool = False):
                         grow += [{"any": True}] * 3
                         exp.ignore(t)
                     j += 3
+                    continue
+                if is_f and feature == "wide-merge" and i == 1 and j == 0:
+                    span = 3 + (tk.n % 2)
+                    t, t2 = exp.text(tk.new("c"), s), exp.text(tk.new("c"), s)
+                    covered = "<table:covered-table-cell/>" * (span - 1) if twin else f'<table:covered-table-cell table:number-columns-repeated="{span - 1}"/>'
+                    cells.append(f'<table:table-cell table:number-columns-spanned="{span}" office:value-type="string"><text:p>{t}</text:p></table:table-cell>{covered}'
+                                 f'<table:table-cell office:value-type="string"><text:p>{t2}</text:p></table:table-cell>')
+                    grow += [{"toks": [t]}] + [{"empty": True}] * (span - 1) + [{"toks": [t2]}]
+                    j += span + 1
                     continue
                 if is_f and feature == "covered-cell" and i == 1 and j == 0:
                     t = exp.text(tk.new("c"), s)
@@ -635,7 +651,18 @@ def build_ods(seed: int, feature: str | None = None, twin: bool = False):
             trs.append(tr)
             grid.append(grow)
         shapes = ""
-        if is_f and feature == "missing-picture-part":
+        if feature == "shared-picture":
+            n_img += 1
+            if ods_logo is None:
+                f1, ods_logo = _frame_image(rng, files, exp, n_img, s + 1, y="1cm")
+            elif twin:
+                f1, _ = _frame_image(rng, files, exp, n_img, s + 1, y="1cm", reuse=dict(ods_logo, name=f"Pictures/logo-copy{n_img}{ods_logo['ext']}"))
+            else:
+                f1, _ = _frame_image(rng, files, exp, n_img, s + 1, y="1cm", reuse=ods_logo)
+            n_img += 1
+            f2, _ = _frame_image(rng, files, exp, n_img, s + 1, y="5cm")
+            shapes = f"<table:shapes>{f1}{f2}</table:shapes>"
+        elif is_f and feature == "missing-picture-part":
             fxs = []
             for k3 in range(3):
                 n_img += 1
